@@ -6,7 +6,7 @@
    on a real ini_p and compares the driver's observation with `store`/`gen` for equality (store0/gen0 only serve to
    recognise the two registered defects on the unchanged tree - anything else is a violation).
    BehNext: every history up to MaxDepth (exhaustive).  SimNext: random walks for `tlc -simulate`. *)
-EXTENDS MC_IniStore, Json
+EXTENDS IniMenu, Json
 
 VARIABLES alt, hist
 bvars == << lines, model, alt, hist >>
